@@ -96,7 +96,8 @@ def _worker(chk, fams, rows, idx):
                 if pos == "select":
                     return [sx.dbval(r[-1]) for r in got]
                 m = {r[0] for r in got}
-                return [1 if i in m else 0 for i in ids]
+                # last element: rows OUTSIDE the id range that slipped through (a rendering whose OR escapes the id filter)
+                return [1 if i in m else 0 for i in ids] + [len(m - set(ids))]
 
             inn = _find_in(c.node)
             form = "bare" if inn is c.node else c.node.k
@@ -110,7 +111,7 @@ def _worker(chk, fams, rows, idx):
             if nlist == 0 or has_null or has_dup or tup:
                 out["nontrivial"].append(c.key)
             expect_sel = c.x
-            expect_match = [1 if v == 1 else 0 for v in c.x]
+            expect_match = [1 if v == 1 else 0 for v in c.x] + [0]
             famname = "in_tuple" if tup else ("in_scalar" if all(m.k == "lit" for m in members) else "in_expr")
             out["fam"][famname] = out["fam"].get(famname, 0) + 1
             base = dict(spec="SqlExpr", action=inn.k, form=form, nlist=nlist, has_null=has_null, tuple=tup, family=famname)
@@ -123,6 +124,8 @@ def _worker(chk, fams, rows, idx):
                 if got != exp:
                     i = next(i for i in range(len(exp)) if i >= len(got) or got[i] != exp[i])
                     g = got[i] if i < len(got) else got[0]
+                    if i >= len(c.x):        # the out-of-range counter
+                        i = 0
                     err = isinstance(g, str)
                     out["viol"].append((
                         dict(base, position=pos, mode=mode, outcome="error" if err else "value"),
